@@ -169,7 +169,27 @@ def gen_case(rng, direction, opts=None):
     if opts.get("hostile_roots", True) and rng.chance(1, 4):
         rootname = rng.pick(["dst root", "d'st", "dst$x", "dśt", "d*st", "dst\\n", "dst\nline"])
         srcname = rng.pick(["src root", "s'rc", "src", "s$rc"])
-    return {"src": src, "dst": dst, "states": states, "flags": flags, "direction": direction, "dstname": rootname, "srcname": srcname, "dst_exists": bool(dst) or rng.chance(2, 3)}
+    case = {"src": src, "dst": dst, "states": states, "flags": flags, "direction": direction, "dstname": rootname, "srcname": srcname, "dst_exists": bool(dst) or rng.chance(2, 3)}
+    # environment of the trees (drawn from a separate stream so the trees above stay what they were):
+    #  - write-protected files on either side (mode 0444: still replaceable by rename, still deletable)
+    #  - what an earlier interrupted or failed run leaves behind: `<path>.copia-tmp` beside a path, longer than
+    #    the file that will be staged there
+    #  - a root that is named through a symbolic link to the directory (`/srv/app/current`)
+    r2 = SplitMix.derive(rng.next(), "env", 0)
+    if opts.get("env", True):
+        ro = set()
+        if r2.chance(1, 3):
+            ro = {("dst", p) for p in dst if r2.chance(1, 2)} | {("src", p) for p in src if r2.chance(1, 4)}
+        case["readonly"] = sorted(ro)
+        left = {}
+        if opts.get("leftover", True) and r2.chance(1, 4):
+            for p in sorted(src):
+                if r2.chance(1, 2) and (p + STAGING) not in src and (p + STAGING) not in dst and len(p.split("/")[-1].encode()) < 240:
+                    left[p + STAGING] = (r2.bytes(len(src[p][0]) + r2.range(1, 9000)), (1_650_000_000, 0))
+        case["leftover_staging"] = left
+        case["dst_symlink"] = r2.chance(1, 8)
+        case["src_symlink"] = r2.chance(1, 8)
+    return case
 
 
 class OneWay:
@@ -188,14 +208,31 @@ class OneWay:
         os.makedirs(self.parent)
         self.src = os.path.join(self.parent, case["srcname"])
         self.dst = os.path.join(self.parent, case["dstname"])
-        os.makedirs(self.src)
+        self.real_dirs = []
+        left = case.get("leftover_staging") or {}
+        dst_needed = bool(case["dst_exists"] or case["dst"] or left)
+        for path, want_link, needed in ((self.src, case.get("src_symlink"), True), (self.dst, case.get("dst_symlink"), dst_needed)):
+            if not needed:
+                continue
+            if want_link:
+                real = os.path.join(self.parent, "real-%d" % len(self.real_dirs))
+                os.makedirs(real)
+                os.symlink(os.path.basename(real), path)
+                self.real_dirs.append(os.path.basename(real))
+            else:
+                os.makedirs(path)
         self.fs_dropped = 0
         for p, (data, mt) in case["src"].items():
             self._put(self.src, p, data, mt)
-        if case["dst_exists"] or case["dst"]:
-            os.makedirs(self.dst)
         for p, (data, mt) in case["dst"].items():
             self._put(self.dst, p, data, mt)
+        for p, (data, mt) in left.items():
+            self._put(self.dst, p, data, mt)
+        for side, p in case.get("readonly") or []:
+            try:
+                os.chmod(os.path.join(self.src if side == "src" else self.dst, p), 0o444)
+            except OSError:
+                pass
 
     def _put(self, base, p, data, mt):
         full = os.path.join(base, p)
@@ -270,11 +307,13 @@ def check_delivery(ow, r, src0, dst0, src1, dst1, transfer, skipped, dele, viol,
             elif f1[p]["mtime_ns"] // 1_000_000_000 != src0[p]["mtime_ns"] // 1_000_000_000:
                 viol("C04|%s|exit0-mtime-not-carried" % d, dict(label, path=p, got=f1[p]["mtime_ns"], want=src0[p]["mtime_ns"]))
         for p in dele:
-            if p in f1:
+            if p in f1 and not is_staging(p):
                 viol("C04|%s|exit0-stale-file-not-deleted" % d, dict(label, path=p))
         for p, x in f0.items():
             if p in transfer or p in dele:
                 continue
+            if is_staging(p) and p[: -len(STAGING)] in transfer:
+                continue  # a reserved name beside a planned path: the run may reuse and consume it
             if p not in f1:
                 viol("C04|%s|exit0-unplanned-file-removed" % d, dict(label, path=p))
             elif not same_rec(x, f1[p]):
@@ -317,7 +356,7 @@ def outside_snapshot(ow):
     s = {}
     for base, tag in ((ow.home, "home"), (ow.parent, "parent")):
         for p, r in snapshot(base).items():
-            if tag == "parent" and (p.startswith(ow.case["srcname"] + "/") or p.startswith(ow.case["dstname"] + "/")):
+            if tag == "parent" and (p.startswith(ow.case["srcname"] + "/") or p.startswith(ow.case["dstname"] + "/") or any(p.startswith(d + "/") for d in ow.real_dirs)):
                 continue
             if tag == "home" and p.startswith(".copia/"):
                 continue
@@ -599,7 +638,7 @@ def _c15_worker(args):
         for direction in DIRECTIONS:
             rng = SplitMix.derive(seedv, "c15", idx)
             meta_names = rng.chance(1, 2)
-            case = gen_case(rng, direction, {"clash": False, "alphabet": ["a", "b", "*", "?", ".", "-", "é", "日"] if meta_names else None, "max_files": 10})
+            case = gen_case(rng, direction, {"leftover": False, "alphabet": ["a", "b", "*", "?", ".", "-", "é", "日"] if meta_names else None, "max_files": 10})
             fl = case["flags"]
             # exclude-heavy: make sure there is at least one pattern in 3 of 4 cases
             if not fl["excludes"] and rng.chance(3, 4):
@@ -744,6 +783,8 @@ def c09_scenarios(rng=None):
         keep = {"L/" + "x" * n: (b"k%d" % n, old) for n in range(1, plen + 1)}
         stale = {"L/" + "x" * plen + c: (b"s", old) for c in "abcdefghijklmnopqrstuvwxyz0123456789ABCDEFGHIJKLMNOPQRSTUVWXYZ"}
         S["long-delete-list-prefix-names-" + tag] = dict(src=dict(keep, **{"new": (b"n", new)}), dst=dict(keep, **stale), delete=True)
+    # write-protected destination files: replaced by rename and deleted like any other, never unlinked first
+    S["readonly-destination-files"] = dict(src={"locked.db": (k300[:70000], new), "d/ro": (b"new-ro", new), "same": (b"same", old)}, dst={"locked.db": (b"old locked content", old), "d/ro": (b"old-ro", old), "same": (b"same", old), "stale-ro": (b"s", old)}, delete=True, readonly=[("dst", "locked.db"), ("dst", "d/ro"), ("dst", "same"), ("dst", "stale-ro")])
     S["700K-over-older-delete"] = dict(src={"big7": (k700, new), "k": (b"k", new)}, dst={"big7": (k700[:1000], old), "stale/x": (b"s", old)}, delete=True)
     return S
 
@@ -760,10 +801,10 @@ def _c09_worker(args):
         name, direction = jobs[idx]
         if name in scen:
             sc = scen[name]
-            case = {"src": sc["src"], "dst": sc["dst"], "states": {}, "flags": {"delete": sc["delete"], "excludes": [], "jobs": 2, "verbose": False}, "direction": direction, "dstname": "dst", "srcname": "src", "dst_exists": True}
+            case = {"src": sc["src"], "dst": sc["dst"], "states": {}, "flags": {"delete": sc["delete"], "excludes": [], "jobs": 2, "verbose": False}, "direction": direction, "dstname": "dst", "srcname": "src", "dst_exists": True, "readonly": sc.get("readonly", [])}
         else:
             rng = SplitMix.derive(seedv, "c09", name)
-            case = gen_case(rng, direction, {"clash": False, "max_files": 4, "hostile_roots": False})
+            case = gen_case(rng, direction, {"clash": False, "max_files": 4, "hostile_roots": False, "leftover": False})
             case["flags"]["jobs"] = rng.pick([1, 2, 4])
         root = os.path.join(wroot, "s%d" % idx)
         ow = OneWay(root, case)
